@@ -86,6 +86,11 @@ def gen_probe(src, info):
         specs = [n for n in names if attrs[n]["type"][0] == "spec"]
         if specs:
             a = src.pick(specs)
+            if src.chance(1, 3):
+                # the combined form: a replacement value AND keywords to merge into it
+                kw = {n: v for n, v in _nested_kw(src, attrs[a]["type"][1]).items() if not ops.is_special(v)}
+                if kw:
+                    return {"t": "call", "m": f"update_{a}", "a": [grammar.gen_value(src, attrs[a]["type"], True)], "k": dict(k, **kw), "form": "update_value_kw"}
             return {"t": "call", "m": f"update_{a}", "a": [], "k": dict(k, **_nested_kw(src, attrs[a]["type"][1])), "form": "update_nested_kw"}
     if m <= 8:
         return {"t": "call", "m": f"reset_{src.pick(names)}", "a": [], "k": k, "form": "reset_attr"}
@@ -195,6 +200,17 @@ def expected_states(world, cname, state, probe):
                 inner = model.set_attr(world, T[1], inner, n, v)
             new = ["I", old[1], inner]
         return [model.set_attr(world, cname, state, a, new)]
+    if form == "update_value_kw":
+        a = probe["m"].split("_", 1)[1]
+        T = attrs[a]["type"]
+        base = model.mvalue(world, probe["a"][0])
+        if not (isinstance(base, list) and base and base[0] == "I"):
+            return None
+        inner = dict(base[2])
+        for n, v in k.items():
+            if not ops.is_special(v):
+                inner = model.set_attr(world, T[1], inner, n, model.mvalue(world, v))
+        return [model.set_attr(world, cname, state, a, ["I", base[1], inner])]
     if form == "transform":
         a = probe["m"].split("_", 1)[1]
         ok, v = fn_result(probe["a"][0], state.get(a, model.ABSENT))
